@@ -13,7 +13,7 @@ Driver for the C02 model (`SgModel.IdxScan`).  One request line per case:
   op      := c:<id>:<labels> | s:<id>:<key>:<val> | r:<id>:<key> | d:<id> | al:<id>:<l> | rl:<id>:<l>
            | ci:<l>:<k> | di:<l>:<k> | ce:<id>:<src>:<dst>:<ty> | de:<id>
   labels  := - | n(.n)*
-  val     := n | bt | bf | i<int> | f<halves> | s<hex> | l | l<int>(.<int>)*
+  val     := n | bt | bf | i<int> | f<halves> | z (-0.0) | N (NaN) | s<hex> | l | l<int>(.<int>)*
   queries := query(;query)*
   query   := <label>|<preds>|<ret>|<hop>
   preds   := - | pred(&pred)*      pred := <key>,<eq|lt|le|gt|ge>,<val> | <key>,in,<val>(+<val>)*
@@ -29,6 +29,8 @@ def parseVal? (s : String) : Option Val :=
   if s == "n" then some .null
   else if s == "bt" then some (.bool true)
   else if s == "bf" then some (.bool false)
+  else if s == "z" then some .nzero
+  else if s == "N" then some .nan
   else if s.startsWith "i" then (parseInt? (s.drop 1).toString).map .int
   else if s.startsWith "f" then (parseInt? (s.drop 1).toString).map .flt
   else if s.startsWith "s" then
@@ -44,6 +46,8 @@ def showVal : Val → String
   | .bool false => "bf"
   | .int i => s!"i{i}"
   | .flt h => s!"f{h}"
+  | .nzero => "z"
+  | .nan => "N"
   | .str s => "s" ++ hexOfBytes (s.map (fun c => UInt8.ofNat c.toNat))
   | .lst l => "l" ++ showInts l
 
